@@ -89,6 +89,20 @@ TARGETED = [
 ]
 
 
+def large_programs():
+    """inputs that are big in one dimension (operator chains, nesting, pipeline length, tuple width): whatever guards or caches a
+    pass keeps for them must not outlive the call"""
+    out = []
+    for n in (60, 130, 200):
+        out.append("from t | filter (" + " || ".join("a == %d" % i for i in range(n)) + ")")
+        out.append("from t | derive {s = " + " + ".join("c%d" % i for i in range(n)) + "}")
+    out.append("from t | derive {x = " + "(" * 40 + "a" + " + 1)" * 40 + "}")
+    out.append("from t | " + " | ".join("derive {d%d = a + %d}" % (i, i) for i in range(60)))
+    out.append("from t | select {" + ", ".join("c%d" % i for i in range(150)) + "}")
+    out.append("from t | filter (" + " && ".join("(==c%d)" % i if False else "c%d == null" % i for i in range(90)) + ")")
+    return out
+
+
 def exclusion_programs(rng, n):
     """select !{..} with two or more columns, single and doubled, after from / join / derive"""
     cols = ["a", "b", "c", "d", "e", "f", "last_name", "first_name", "dept", "city"]
@@ -394,7 +408,8 @@ def run():
     nrand = ck.n(60, 500)
     progs = []
     kwprogs = keyword_programs(ck.rng, ck.n(12, 60))
-    for p in TARGETED + exclusion_programs(ck.rng, ck.n(16, 80)) + kwprogs + COVER + list(POOL) + ERRORS + PANICKERS + [random_program(ck.rng) for _ in range(nrand)]:
+    large = large_programs()
+    for p in TARGETED + large + exclusion_programs(ck.rng, ck.n(16, 80)) + kwprogs + COVER + list(POOL) + ERRORS + PANICKERS + [random_program(ck.rng) for _ in range(nrand)]:
         if p not in progs:
             progs.append(p)
     targets = [None, "sql.postgres", "sql.mssql"]
@@ -437,6 +452,17 @@ def run():
                 steps.append(ck.rng.choice(reqs))
         steps += [ck.rng.choice(reqs) for _ in range(4)]
         hbatches.append([{"steps": steps}])
+    # error-soak histories: ONE failing (or large) request repeated many times on the same thread, then valid requests, then the
+    # failing one again -- state that a failing call leaves behind (a guard not restored on the error path, a cache filled half
+    # way) only shows after enough failures; every step is judged against all other observations of the same request
+    failing = [r for r in reqs if r["src"] in ERRORS or r["src"] in PANICKERS or r["src"] in large
+               or any(w in r["src"] for w in ("(==1)", "(==t.x)", "foo:", "nope", "zz.a"))]
+    valid = [r for r in reqs if r["src"] in COVER or r["src"] in list(POOL)[:40]]
+    nsoak = ck.n(60, 150)
+    for e_ in ck.rng.sample(failing, min(len(failing), ck.n(28, 90))):
+        steps = [e_] * nsoak + [ck.rng.choice(valid) for _ in range(3)] + [e_] + [{"src": large[0], "format": False, "sig": False}, ck.rng.choice(valid)]
+        hbatches.append([{"steps": steps}])
+    ck.coverage["error_soak_histories"] = {"failing_or_large_requests": len(failing), "repetitions": nsoak}
     dialects = ["sql." + d for d in ("ansi", "bigquery", "clickhouse", "duckdb", "generic", "glaredb", "mssql", "mysql", "postgres", "redshift", "sqlite", "snowflake")]
     sweep_srcs = kwprogs + [r["src"] for r in ck.rng.sample(reqs, min(len(reqs), ck.n(12, 60)))]
     for src in sweep_srcs:
